@@ -4,6 +4,7 @@ import MalVerif.Model.AGS
 import MalVerif.Model.Query
 import MalVerif.Model.Gen
 import MalVerif.Model.MState
+import MalVerif.Model.Serial
 open Lean MalVerif
 
 namespace Drv
@@ -314,6 +315,89 @@ def opModelHist (j : Json) : R Json := do
     outs := outs.push (jO [("err", err), ("out", out), ("obs", obsM L s)])
   pure (Json.arr outs)
 
+
+/-! ### saving / loading instance models (C07) -/
+open Ser in
+def keyToJson : Key → Json
+  | .i n => jI n | .s t => jS t
+open Ser in
+def parseKey (j : Json) : R Key :=
+  match j with
+  | .str t => pure (.s t)
+  | _ => do pure (.i (← jint j))
+
+open Ser in
+def docToJson (d : ModelDoc) : Json :=
+  let pair (a : String × String) : Json := Json.arr #[jS a.1, jS a.2]
+  jO [("assets", jsonOfList (fun (e : Key × AssetEntry) => Json.arr #[keyToJson e.1,
+          match e.2 with
+          | .full n t ds ex => jO [("name", jS n), ("type", jS t), ("defenses", jsonOfList pair ds), ("extras", jOptS ex)]
+          | .shorthand t => jS t]) d.assets),
+      ("associations", jsonOfList (fun (a : AssocEntry) => jO [("cls", jS a.cls), ("lf", jS a.lf),
+          ("left", jsonOfList keyToJson a.left), ("rf", jS a.rf), ("right", jsonOfList keyToJson a.right),
+          ("extras", jOptS a.extras)]) d.associations),
+      ("attackers", jsonOfList (fun (e : Key × AttackerEntry) => Json.arr #[keyToJson e.1,
+          jO [("name", jS e.2.name), ("entry", jsonOfList (fun (p : Key × List String) =>
+              Json.arr #[keyToJson p.1, jsonOfList jS p.2]) e.2.entry)]]) d.attackers)]
+
+open Ser in
+def parseDoc (j : Json) : R ModelDoc := do
+  let assets ← jfield (jlist (fun e => do
+    match (← jarr e) with
+    | [k, v] =>
+      let key ← parseKey k
+      match v with
+      | .str t => pure (key, AssetEntry.shorthand t)
+      | _ =>
+        let ds ← jfield (jlist (fun d => do
+          match (← jarr d) with
+          | [a, b] => pure ((← jstr a), (← jstr b))
+          | _ => throw "bad defense")) v "defenses"
+        pure (key, AssetEntry.full (← jfield jstr v "name") (← jfield jstr v "type") ds (← jfieldOpt jstr v "extras"))
+    | _ => throw "bad asset entry")) j "assets"
+  let assocs ← jfield (jlist (fun a => do
+    pure ({ cls := ← jfield jstr a "cls", lf := ← jfield jstr a "lf", left := ← jfield (jlist parseKey) a "left",
+            rf := ← jfield jstr a "rf", right := ← jfield (jlist parseKey) a "right",
+            extras := ← jfieldOpt jstr a "extras" } : AssocEntry))) j "associations"
+  let atts ← jfield (jlist (fun e => do
+    match (← jarr e) with
+    | [k, v] =>
+      let entry ← jfield (jlist (fun p => do
+        match (← jarr p) with
+        | [a, st] => pure ((← parseKey a), (← jlist jstr st))
+        | _ => throw "bad entry point")) v "entry"
+      pure ((← parseKey k), ({ name := ← jfield jstr v "name", entry := entry } : AttackerEntry))
+    | _ => throw "bad attacker entry")) j "attackers"
+  pure { assets := assets, associations := assocs, attackers := atts }
+
+def runModelOps (L : Lang) (ops : List Json) : R MS.St := do
+  let mut s : MS.St := {}
+  for o in ops do
+    let (s', _, _) ← mStep L s o
+    s := s'
+  pure s
+
+/-- build a model by a history, save it, pass it through the file layer, load it, save again -/
+def opSerModel (j : Json) : R Json := do
+  let L ← parseLang (← jget j "lang")
+  let ops ← jfield jarr j "ops"
+  let fmt ← jfield jstr j "fmt"
+  let s ← runModelOps L ops
+  let d := Ser.toDoc L s
+  let d' := if fmt = "json" then Ser.jsonRT d else Ser.yamlRT d
+  match Ser.fromDoc L (fun _ => true) d' with
+  | .error e => pure (jO [("doc", docToJson d), ("error", jS (mErrName e)), ("orig", obsM L s)])
+  | .ok s' => pure (jO [("doc", docToJson d), ("orig", obsM L s), ("loaded", obsM L s'), ("resaved", docToJson (Ser.toDoc L s'))])
+
+/-- load a hand-written document -/
+def opLoadDoc (j : Json) : R Json := do
+  let L ← parseLang (← jget j "lang")
+  let d ← parseDoc (← jget j "doc")
+  let bad ← jfield (jlist parseKey) j "badDefenses"
+  match Ser.fromDoc L (fun k => !bad.contains k) d with
+  | .error e => pure (jO [("error", jS (mErrName e))])
+  | .ok s => pure (jO [("loaded", obsM L s), ("resaved", docToJson (Ser.toDoc L s))])
+
 def dispatch (j : Json) : R Json := do
   let op ← jfield jstr j "op"
   match op with
@@ -323,6 +407,8 @@ def dispatch (j : Json) : R Json := do
   | "gen" => opGen j
   | "eval" => opEval j
   | "model_hist" => opModelHist j
+  | "ser_model" => opSerModel j
+  | "load_doc" => opLoadDoc j
   | _ => throw "bad-op"
 
 def handle (line : String) : String :=
